@@ -158,7 +158,7 @@ Section Auto.
     - rewrite private_op_state. exact H.
     - exact H.
     - cbn [fst k_pkts k_scopes existsb]. apply map_relock_locked.
-    - cbn [fst k_pkts k_scopes]. rewrite lou_added. exact H.
+    - destruct (primary_unlocked k); cbn [fst k_pkts k_scopes]; [rewrite lou_added|]; exact H.
   Qed.
 
   Lemma inv_run ops : forall st, inv st = true -> inv (RUN ops st) = true.
@@ -211,7 +211,7 @@ Section Auto.
     - rewrite private_op_state. reflexivity.
     - rewrite private_op_state. reflexivity.
     - reflexivity.
-    - reflexivity.
+    - destruct (primary_unlocked (k_pkts st)); reflexivity.
   Qed.
   Lemma neutral_lou st o : scope_neutral o = true -> forallb locked_or_unprot (k_pkts st) = true ->
     forallb locked_or_unprot (k_pkts (fst (STEP st o))) = true.
@@ -223,7 +223,7 @@ Section Auto.
     - rewrite private_op_state. exact H.
     - rewrite private_op_state. exact H.
     - exact H.
-    - cbn [fst k_pkts]. rewrite lou_added. exact H.
+    - destruct (primary_unlocked (k_pkts st)); cbn [fst k_pkts]; [rewrite lou_added|]; exact H.
   Qed.
   Lemma run_neutral body : forall st, forallb scope_neutral body = true ->
     k_scopes (RUN body st) = k_scopes st /\
@@ -276,13 +276,26 @@ Section Auto.
   Qed.
 
   (* the witness of e967622: a subkey attached inside the scope is still there, secret integers and all, after the scope *)
-  Lemma subkey_added_in_scope_survives st ms chk o s : exit_op o -> k_scopes st = true :: s ->
+  Lemma add_sub_unlocked st ms chk : primary_unlocked (k_pkts st) = true ->
+    STEP st (OAddSub ms chk) =
+    ({| k_pkts := k_pkts st ++ [{| p_blob := None; p_fields := ms; p_chk := chk |}]; k_scopes := k_scopes st |}, BDone).
+  Proof. intros H. unfold step. rewrite H. reflexivity. Qed.
+  (* repair 163b208: add_subkey on a locked key is refused and leaves the key as it was *)
+  Lemma add_sub_locked_unchanged st ms chk : primary_unlocked (k_pkts st) = false -> STEP st (OAddSub ms chk) = (st, BRefused).
+  Proof. intros H. unfold step. rewrite H. reflexivity. Qed.
+  (* the rule before the repair left the unbound packet attached *)
+  Lemma add_sub_old_refuted : exists st ms chk, primary_unlocked (k_pkts st) = false /\
+    k_pkts (fst (add_sub_old st ms chk)) <> k_pkts (fst (STEP st (OAddSub ms chk))).
+  Proof.
+    exists {| k_pkts := [ {| p_blob := Some (BGnu 254 0 1 [] []); p_fields := [0]; p_chk := [] |} ]; k_scopes := [] |}, [5], [0; 5].
+    split; [reflexivity|]. cbn. intros H. inversion H.
+  Qed.
+
+  Lemma subkey_added_in_scope_survives st ms chk o s : exit_op o -> k_scopes st = true :: s -> primary_unlocked (k_pkts st) = true ->
     fst (STEP (fst (STEP st (OAddSub ms chk))) o) =
     {| k_pkts := map relock (k_pkts st) ++ [{| p_blob := None; p_fields := ms; p_chk := chk |}]; k_scopes := s |}.
   Proof.
-    intros Ho Hs.
-    change (fst (STEP st (OAddSub ms chk)))
-      with {| k_pkts := k_pkts st ++ [{| p_blob := None; p_fields := ms; p_chk := chk |}]; k_scopes := k_scopes st |}.
+    intros Ho Hs Hu. rewrite (add_sub_unlocked st ms chk Hu). cbn [fst].
     set (st1 := {| k_pkts := k_pkts st ++ [{| p_blob := None; p_fields := ms; p_chk := chk |}]; k_scopes := k_scopes st |}).
     assert (Hs1 : k_scopes st1 = true :: s) by exact Hs.
     rewrite (exit_clears st1 o s Ho Hs1). unfold st1. cbn [k_pkts]. rewrite map_app. reflexivity.
@@ -491,7 +504,7 @@ Section Sym.
     - rewrite private_op_state. exact H.
     - exact H.
     - cbn [fst k_pkts]. apply (same_blobs_ok (k_pkts st)); [apply map_same_blobs; apply relock_blob | exact H].
-    - cbn [fst k_pkts]. apply Forall2_app; [exact H | apply (init_ok [_])].
+    - destruct (primary_unlocked (k_pkts st)); cbn [fst k_pkts]; [apply Forall2_app; [exact H | apply (init_ok [_])] | exact H].
   Qed.
 
   Lemma run_sym_ok ops : forall st syms, Forall2 sym_ok (k_pkts st) syms ->
